@@ -348,6 +348,7 @@ class Image(Traversable):
             f_set: Callable[[_T, str], None]
     ) -> List[_T]:
         candidate_names: Dict[str, List[_T]] = {}
+        generated_names = set()
         for element in elements:
             is_file = element.type_id != ElementTypes.DirectoryEntry
             candidate_name = f_sanitize(element.name, is_file)
@@ -368,17 +369,20 @@ class Image(Traversable):
                 if i > 1:
                     next_name = self._add_count_to_name(name, i)
                     j = 0
-                    while (next_name in candidate_names.keys()):
+                    while (next_name in candidate_names.keys()
+                            or next_name in generated_names):
                         i += 1
                         j += 1
                         next_name = self._add_count_to_name(name, i)
-                        if j > len(candidate_names.keys()):
+                        if j > len(candidate_names.keys()) \
+                                + len(generated_names):
                             # This should never(?) happen
                             raise CouldNotDetermineName(
                                 "Unable to determine proper (sanitized) "
                                 f"name for {element.name}. Too many name "
                                 "collisions."
                             )
+                    generated_names.add(next_name)
                 else:
                     next_name = name
                 f_set(element, next_name)
